@@ -1,9 +1,11 @@
 """C06 bounded stand-in: serializer preferences do exactly what they document, in every combination.
 
 For every DOM d of the domain (abstract sheets of bounded/gen.py in several spellings + hand-written sheets with @variables, unknown at-rules holding bare
-'-' '#' '@', calc(), !important, :not(), namespaces, duplicate / invalid / empty declarations) and every preference assignment P of the tier
-(every preference alone with each non-default value, all pairs, the minified preset, a pairwise covering array over the full value domains, seeded random full
-assignments):
+'-' '#' '@', calc(), !important, :not(), namespaces, duplicate / invalid / empty declarations + the token-adjacency family `adjacency_sources`: every ordered pair of
+31 token classes (+ a block) as neighbours in an unknown at-rule, 6 compounds x 4 combinators x 11 compounds in selectors, 23 media lists on @media / nested @media /
+@import, functions next to and inside each other in values) and every preference assignment P of the tier
+(every preference alone with each non-default value, all pairs, the minified preset, the minified preset with each one of its preferences put back to the default,
+a pairwise covering array over the full value domains, seeded random full assignments):
 
   CL_SER     d.cssText under P raises nothing
   CL_LINENO  lineNumbers=True only prefixes every line with its number: stripping the prefixes gives the output without the preference
@@ -14,6 +16,7 @@ assignments):
   CL_SPELL   the spelling preferences show in the text exactly as documented (`spelling_faults`): literal vs normalised at-keyword / property name / priority,
              @import href as string or url(), hash shortening, leading zero, last semicolon, variable names
   CL_LAYOUT  the layout preferences change white space only: the S-free token sequence equals that of the same assignment with the layout preferences reset
+             (tokens read by the CSS grammar: an identifier glued to '(' is a FUNCTION token, also 'and(' which cssutils' own tokenizer forgives)
   CL_RESTORE prefs.useDefaults() restores the default output byte for byte (checked after every assignment)
   CL_FRAME   the documented preferences are exactly the attributes useDefaults() assigns; useMinified() assigns documented names only
 
@@ -89,6 +92,14 @@ def assignments(tier, seed):
         for v in PREFS[n][2]:
             out.append(('single', {n: v}))
     out.append(('minified', 'MINIFIED'))
+    # the minified preset with ONE of its preferences put back to the default: the preset switches 12 preferences at once, among them filters (comments, unknown at-rules) that
+    # hide what the empty spacers do to the constructs they drop
+    from cssutils.serialize import Preferences
+    q = Preferences()
+    q.useMinified()
+    for n in NAMES:
+        if getattr(q, n, DEFAULTS[n]) != DEFAULTS[n]:
+            out.append(('minified-but-one', ('MINIFIED', n)))
     domains = [[PREFS[n][0]] + PREFS[n][2] for n in NAMES]
     for row in gen.pairwise_rows(domains, seed):
         out.append(('pairwise-row', dict(zip(NAMES, row))))
@@ -104,7 +115,7 @@ def assignments(tier, seed):
     seen = set()
     res = []
     for label, a in out:
-        k = a if isinstance(a, str) else key(a)
+        k = a if isinstance(a, (str, tuple)) else key(a)
         if k in seen and label != 'defaults':
             continue
         seen.add(k)
@@ -116,6 +127,10 @@ def apply(prefs, assign):
     prefs.useDefaults()
     if assign == 'MINIFIED':
         prefs.useMinified()
+        return {n: getattr(prefs, n) for n in NAMES}
+    if isinstance(assign, tuple) and assign[0] == 'MINIFIED':
+        prefs.useMinified()
+        setattr(prefs, assign[1], DEFAULTS[assign[1]])
         return {n: getattr(prefs, n) for n in NAMES}
     for k, v in assign.items():
         setattr(prefs, k, v)
@@ -133,11 +148,25 @@ _TOKENIZER = [None]
 
 
 def tokens(text, comments=True):
-    """(type, value) of every token of text but S (and COMMENT)"""
+    """(type, value) of every token of text but S (and COMMENT).
+    Read by the CSS grammar, not by the forgiving one of cssutils: an identifier IMMEDIATELY followed by '(' is one FUNCTION token (CSS 2.1 4.1.1 `FUNCTION {ident}\\(`).
+    cssutils' tokenizer exempts the identifier 'and' from that rule so that the malformed media query 'screen and(color)' (Media Queries 3, section 3.1: "having no space
+    between 'and' and the expression is not allowed") is still read; for a well-formed output the blank must be there, so here 'and(' is the FUNCTION token it is."""
     if _TOKENIZER[0] is None:
         from cssutils.tokenize2 import Tokenizer
         _TOKENIZER[0] = Tokenizer
-    return [(t[0], t[1]) for t in _TOKENIZER[0]().tokenize(text) if t[0] != 'S' and (comments or t[0] != 'COMMENT')]
+    out = []
+    glued = False   # the previous raw token is an IDENT and nothing stands between it and this token
+    for t in _TOKENIZER[0]().tokenize(text):
+        ty, v = t[0], t[1]
+        if glued and ty == 'CHAR' and v == '(':
+            out[-1] = ('FUNCTION', out[-1][1] + '(')
+            glued = False
+            continue
+        glued = ty == 'IDENT'
+        if ty != 'S' and (comments or ty != 'COMMENT'):
+            out.append((ty, v))
+    return out
 
 
 def view(text):
@@ -212,7 +241,9 @@ def view(text):
             node['items'], j = decl_block(j + 1, ty == 'PAGE_SYM')
             return node, j
         node['opaque'] = True
-        return node, skip_block(j)
+        end = skip_block(j)
+        node['block'] = t[j:end]
+        return node, end
 
     def decl_block(i, page=False):
         items = []
@@ -824,6 +855,59 @@ def gen_spellings():
             dataclasses.replace(D, escape='simple', escape_parts=('atkeyword', 'atkeyword-nested', 'property', 'important'), ws='none', num='bare')]
 
 
+# Token adjacency: every spacing decision of the serializer goes through one append routine that looks at the token it appends and at the blank before it. Whether a blank
+# may go decides the NEIGHBOURS of the token, so the domain is pairs of neighbours, in every construct whose tokens are written one by one:
+#   - the content of an unknown at-rule (opaque tokens: every token class next to every token class, a blank between them in the source),
+#   - selectors (every combinator, the descendant blank among them, before every kind of compound selector - with and without a type selector in front),
+#   - media queries (expressions in parentheses behind a media type, behind 'and', at the start) on @media, nested @media and @import,
+#   - functions next to identifiers, to each other and inside each other in values.
+TOKEN_POOL = [
+    ('ident', 'y'), ('ident-dash', '-y'), ('number', '1'), ('number-plus', '+1'), ('number-minus', '-1'), ('dimension', '1px'), ('percentage', '1%'), ('string', '"s"'),
+    ('uri', 'url(u)'), ('hash', '#h'), ('function', 'f(a)'), ('parens', '(a)'), ('brackets', '[a]'), ('urange', 'U+1-2'), ('important', '!important'),
+    ('minus', '-'), ('plus', '+'), ('star', '*'), ('slash', '/'), ('comma', ','), ('colon', ':'), ('equals', '='), ('dot', '.'), ('greater', '>'), ('tilde', '~'), ('bar', '|'),
+    ('bang', '!'), ('number-sign', '#'), ('at', '@'), ('includes', '~='), ('dashmatch', '|='),
+]
+TOKEN_LAST_ONLY = [('block', '{a}')]
+
+
+def adjacency_sources(tier):
+    import itertools
+    out = []
+    info = {'core': True, 'family': 'adjacency'}
+    for (kx, x), (ky, y) in itertools.product(TOKEN_POOL, TOKEN_POOL + TOKEN_LAST_ONLY):
+        end = '' if ky == 'block' else ';'
+        out.append(('adjacent/unknown-prelude:%s %s' % (kx, ky), '@u %s %s%s' % (x, y, end), info))
+        if tier == 'thorough':
+            out.append(('adjacent/unknown-block:%s %s' % (kx, ky), '@u p { %s %s }' % (x, y), info))
+            out.append(('adjacent/unknown-in-media:%s %s' % (kx, ky), '@media print { @u %s %s%s }' % (x, y, end), info))
+    # selectors: compound x combinator x compound, the second one with every kind of simple selector standing alone
+    reps = gen._rep(gen.SIMPLES)
+    C = gen.C
+    firsts = [('type', C('a')), ('class', C(None, reps['class'])), ('attr', C(None, reps['attr'])), ('pclass', C('a', reps['pclass'])), ('not', C('*', reps['not'])), ('universal', C('*'))]
+    seconds = [('type', C('b')), ('universal', C('*')), ('ns-type', C(('p', 'b'))), ('any-ns-type', C(('*', 'b')))] + [(k, C(None, reps[k])) for k in gen.SIMPLE_KINDS]
+    for (k1, c1), comb, (k2, c2) in itertools.product(firsts, gen.COMBINATORS, seconds):
+        out.append(('adjacent/selector:%s%s%s' % (k1, comb, k2), gen.render(gen._wrap_selector(gen.Sel(c1, comb, c2)), gen.DEFAULT), info))
+    # media queries: [not|only] [type] [and] (expression)* on every holder
+    exprs = ['(color)', '(min-width: 100px)']
+    queries = []
+    for q in ('', 'not ', 'only '):
+        for t in ('screen', 'all'):
+            queries.append(q + t)
+            queries.append(q + t + ' and ' + exprs[0])
+            queries.append(q + t + ' and ' + exprs[1] + ' and ' + exprs[0])
+    queries += [exprs[0], exprs[1] + ' and ' + exprs[0]]
+    lists = queries + ['%s, %s' % (a, b) for a, b in (('print', exprs[0]), (exprs[1], 'print'), ('screen and (color)', 'print and (color)'))]
+    for i, m in enumerate(lists):
+        out.append(('adjacent/media:%d' % i, '@media %s { a { top: 0 } }' % m, info))
+        out.append(('adjacent/media-nested:%d' % i, '@media print { @media %s { a { top: 0 } } }' % m, info))
+        out.append(('adjacent/import-media:%d' % i, '@import "a.css" %s;' % m, info))
+        out.append(('adjacent/import-url-media:%d' % i, '@import url(a.css) %s "nm";' % m, info))
+    # values: an identifier / a closing parenthesis next to a function, functions in functions (bare parentheses are not accepted in values by the parser)
+    for i, v in enumerate(['y f(a) z', 'f(a) g(b)', 'f(g(a) h(b))', 'calc(1px + 2px) calc(3px - 1px)', 'calc(1px + calc(2px * 3))', 'y calc(1px + 2px) z', 'y url(u) f(url(u) y)']):
+        out.append(('adjacent/value-functions:%d' % i, 'a { x: 1px %s 2px }' % v, info))
+    return out
+
+
 def dom_sources(tier, seed):
     """[(label, source text, info)] - deterministic.
     core (info['core'], both tiers): of the QUICK enumeration of the generator the rule-level sheets (every rule variant, every ordered pair of rule kinds) in 3 spellings,
@@ -850,6 +934,7 @@ def dom_sources(tier, seed):
             out.append((label, text, {'sheet': gen.to_json(a), 'spelling': sp.describe(), 'core': True}))
     for label, text in EXTRA:
         out.append(('extra/' + label, text, {'core': True}))
+    out += adjacency_sources(tier)
     if tier == 'thorough':
         k = 0
         for label, a in gen.enumerate_sheets('thorough', seed):
@@ -1035,11 +1120,11 @@ def _classify(label, src, clause, P, detail):
 
 
 def _plus_number(src):
-    """the prelude of a rule of the source (selector, unknown at-rule) holds a '+' that stands before a number: the an+b of a functional pseudo-class, '+1 + 1' in an
-    unknown at-rule - a '+' that is not a selector combinator"""
+    """the prelude of a rule of the source (selector, unknown at-rule) or the opaque block of an unknown at-rule holds a '+' that stands before a number: the an+b of a
+    functional pseudo-class, '+1 + 1' in an unknown at-rule - a '+' that is not a selector combinator"""
     try:
         for nd in walk(view(src)):
-            t = nd['prelude']
+            t = nd['prelude'] + nd.get('block', [])
             if any(a == ('CHAR', '+') and b[0] in ('NUMBER', 'DIMENSION', 'PERCENTAGE') for a, b in zip(t, t[1:])):
                 return True
     except Malformed:
@@ -1086,16 +1171,27 @@ KNOWN = [
 ]
 
 
+_PLAN = {}
+
+
+def _plan(tier, seed):
+    """(sources, assignments) - computed once per process (the pool is forked after the parent has computed it)"""
+    if (tier, seed) not in _PLAN:
+        _PLAN[(tier, seed)] = (dom_sources(tier, seed), assignments(tier, seed))
+    return _PLAN[(tier, seed)]
+
+
 def _worker(args):
     tier, seed, lo, hi = args
     cssutils = _quiet()
-    srcs = dom_sources(tier, seed)
-    assigns = assignments(tier, seed)
+    srcs, assigns = _plan(tier, seed)
     assigns_rest = [a for a in assigns if a[0] in ('defaults', 'minified', 'pairwise-row')]
+    # the token-adjacency sheets are about spacing: of the pairs (thorough tier) they get those of two layout preferences
+    assigns_adj = [a for a in assigns if a[0] != 'pair' or all(k in LAYOUT for k in a[1])]
     res = {'n': 0, 'doms': 0, 'skipped': {}, 'fails': [], 'known': {}, 'kinds': set(), 'nfail': {}}
     try:
         for label, src, info in srcs[lo:hi]:
-            r = evaluate(cssutils, label, src, assigns if info.get('core') else assigns_rest)
+            r = evaluate(cssutils, label, src, assigns_adj if info.get('family') == 'adjacency' else assigns if info.get('core') else assigns_rest)
             res['n'] += r['n']
             if r['skipped']:
                 key_ = r['skipped'].split(':')[0]
@@ -1126,8 +1222,7 @@ def _worker(args):
 def matrix(ctx):
     """preference assignments x DOMs"""
     t0 = time.time()
-    srcs = dom_sources(ctx.tier, ctx.seed)
-    assigns = assignments(ctx.tier, ctx.seed)
+    srcs, assigns = _plan(ctx.tier, ctx.seed)
     n = len(srcs)
     step = max(1, min(12, n // (max(1, ctx.jobs) * 8) or 1))
     tasks = [(ctx.tier, ctx.seed, lo, min(n, lo + step)) for lo in range(0, n, step)]
@@ -1168,9 +1263,12 @@ def matrix(ctx):
                         'rule': 'every DOM (parsed from a generator sheet in up to 3 spellings or from a hand-written sheet) is serialised under every assignment: no exception, line numbers strip cleanly, '
                                 'S-free tokens equal those without the layout preferences, an independent token-level reading finds well-formed rules and declarations, the reparse projects to the DOM '
                                 'with the documented effects applied, the spelling preferences show as documented, useDefaults() restores the default bytes; distinct = assignments x construct kinds of the DOMs',
-                        'bound': '%d assignments (%s; the pairs only on the %d core sources) x %d DOM sources (%d used, skipped %s): %s; %d hand-written sheets' % (
+                        'bound': '%d assignments (%s; the pairs only on the %d core sources, on the token-adjacency sheets only pairs of layout preferences) x %d DOM sources (%d used, skipped %s): %s; %d hand-written sheets; %d token-adjacency sheets '
+                                 '(unknown at-rule: ordered pairs of %d token classes (+ block) separated by a blank%s; selectors: 6 compounds x 4 combinators x 11 compounds; 23 media lists x 4 holders; '
+                                 '7 values of neighbouring / nested functions)' % (
                             len(assigns), ', '.join('%d %s' % (v, k) for k, v in sorted(by.items())), sum(1 for x in srcs if x[2].get('core')), n, doms, json.dumps(skipped, sort_keys=True),
-                            gen.ENUMERATION[ctx.tier][:160], len(EXTRA)),
+                            gen.ENUMERATION[ctx.tier][:160], len(EXTRA), sum(1 for x in srcs if x[2].get('family') == 'adjacency'), len(TOKEN_POOL),
+                            ', also inside the block and inside @media' if ctx.tier == 'thorough' else ''),
                         'samples': [{'assignment': {'keepComments': False, 'omitLastSemicolon': False}, 'source': 'a { color: red; /*last*/ }'}],
                         'exhaustive': False, 'wall_s': round(time.time() - t0, 1), 'known_class_evaluations': {k: v['count'] for k, v in sorted(known.items())}, 'failures': nfail})
 
